@@ -183,6 +183,7 @@ theorem merge_spec (m b m' : Mol) (o : Off) (hinv : Inv m o) (h : m.merge b = (m
             · rw [if_neg hm]
               have := hinv.2; rw [if_neg hm] at this
               refine ⟨?_, this.2⟩
+              left
               simp [hb]
           · have hne : m.nodes ++ enumFrom ((o.n : Int) + 1) (b.nodes.map (fun p => (p.1, p.2.shift o.roff o.coff))) ≠ [] := by
               intro hcontra
@@ -199,7 +200,7 @@ theorem merge_spec (m b m' : Mol) (o : Off) (hinv : Inv m o) (h : m.merge b = (m
                                       coff := a.cg.getD 1 + o.coff } := by
               unfold Off.next; rw [ha]
             rw [hnext]
-            refine ⟨by simp only [Int.natCast_add], a.shift o.roff o.coff, ?_, ?_, ?_⟩
+            refine ⟨Or.inl (by simp only [Int.natCast_add]), a.shift o.roff o.coff, ?_, ?_, ?_⟩
             · rw [lookupAttrs_append_right]
               · rw [lookup_enumFrom_last]
                 · rw [lastA_map_shift, ha]; rfl
